@@ -64,7 +64,7 @@ def cases(tier, rng):
             L(fr, "trunc", cut)
         for k in range(20 if tier == "thorough" else 4):
             L(fr, "flip", rng.randint(0, 10000))
-    for sz in (0, 1, 100, 2999, 3001, 10 ** 6, 10 ** 8, 0x7fffffff):
+    for sz in (0, 1, 100, 2999, 3001, 10 ** 6, 10 ** 8, 3 * 10 ** 8):
         L("z", "zsize", sz)
     for k in (0, 1, 99, 100, 101, 102, 103, 255):
         L("z", "zkind", k)
